@@ -1,4 +1,5 @@
 import Chewing.Proofs.EditorPure
+import Chewing.Proofs.EditorLinkMeta2
 /-!
 # C17 — Queries are pure, contexts are independent, reset gives a clean editor
 
@@ -47,11 +48,19 @@ Bisimulation form: `Bisim`, `bisim_runs` (bisimilar editors are indistinguishabl
 operations and queries), `reset_is_fresh_bisim`; `query_meta_blind` (no getter reads the clock or the
 flush level), `simple_ops_meta_blind` (the seven operations that neither read nor write them), and the
 reduction `resetFreshModuloClock_of_relation`: the clock-and-flush-insensitive statement follows from the
-step property of ONE relation — that step property through every arm of `processKey` is the open obligation.
-NOT proved: that the estimator clock and the pending flush level are unobservable (a new C context
-restarts the clock from the newest stored time): the theorems take the clock as a constructor argument
-and carry the flush level explicitly; the C harness compares reset contexts with new contexts whose clock
-differs, the Rust harness masks the flush level until the first key.
+step property of ONE relation.
+Linked (round 2, section at the end): that step property IS proved, through every arm of `processKey` and
+every other entry point (all 14 operations; `Proofs/EditorLinkMeta.lean`, `Proofs/EditorLinkMeta2.lean`:
+`applyR_metaEq`), for the relation "equal up to the estimator clock and the pending flush level"
+(`EdMetaEq`), in every environment in which time stamps and flushing are unobservable (`MetaBlindEnv`:
+`estimate` does not depend on the clock — C08: Δt = 0 on the editor path —, the time stamp stored by
+`update_phrase` is unobservable, `reopen` + `flush` leaves the observable dictionary unchanged).  Hence
+`reset_is_fresh_modulo_clock`: a reset editor and a fresh editor whose clock is ARBITRARY (a new C context
+restarts it from the newest stored time) and whose flush level is 0 show the client the same on every
+history of operations and queries.  `metaBlind_needed`: without the hypothesis the statement is false (an
+estimator that reads the clock tells them apart).  The hypothesis itself is about the components behind
+`Env` (C08 / C09 / C10), not about the editor; the C harness compares reset contexts with new contexts whose
+clock differs, the Rust harness masks the flush level until the first key.
 -/
 namespace Chewing.C17
 open Chewing
@@ -557,7 +566,8 @@ theorem simple_ops_meta_blind (e : Editor D L) (t k : Nat) (o : Op L)
 
 /-- the statement a C client cares about — a reset context against a NEW context, whose clock restarts from
     the newest stored time and whose flush level is 0 — for environments in which timestamps and flushing
-    are unobservable.  NOT proved: it needs the frame property "the clock reaches nothing but the time
+    are unobservable.  (Round 2: now PROVED under `MetaBlindEnv`, see `reset_is_fresh_modulo_clock` at the end of
+    this file; the remark that follows describes the state before.)  NOT proved: it needs the frame property "the clock reaches nothing but the time
     argument of `estimate` / `updatePhrase`, the flush level nothing but `reopenFlush`" through every arm
     of `processKey`; covered by the paired executions of the harness (C API: the new context's clock differs;
     Rust API: flush level masked until the first key). -/
@@ -713,5 +723,86 @@ example : ∃ p' vs, (Pair.run f25Env f25Env { a := f25Start, b := f25Start }
 example : (Pair.run f25Env noWordEnv { a := f25Start, b := f25Start } [.inl kH, .inr kH, .inr k4, .inl k4, .inr .commit]) = .panic "conv-no-path" ∧
     f25Start.runR noWordEnv (rights ([.inl kH, .inr kH, .inr k4, .inl k4, .inr .commit] : List (Op Nat ⊕ Op Nat))) = .panic "conv-no-path" :=
   ⟨rfl, rfl⟩
+
+/-! ## linked (round 2): the clock and the flush level are unobservable -/
+
+/-- `setMeta` stays inside the relation "equal up to the clock and the flush level" -/
+theorem edMetaEq_setMeta (e : Editor D L) (t k : Nat) : EdMetaEq e (setMeta e t k) := ⟨rfl, rfl⟩
+
+/-- … and the relation is exactly that: the second editor is the first with another clock / flush level -/
+theorem edMetaEq_iff (e₁ e₂ : Editor D L) : EdMetaEq e₁ e₂ ↔ ∃ t k, e₂ = setMeta e₁ t k :=
+  ⟨fun h => h.out, fun ⟨t, k, h⟩ => h ▸ edMetaEq_setMeta e₁ t k⟩
+
+/-- related editors answer every getter alike -/
+theorem edMetaEq_query {e₁ e₂ : Editor D L} (h : EdMetaEq e₁ e₂) (q : Query) : e₁.query env q = e₂.query env q := by
+  obtain ⟨t, k, rfl⟩ := h.out
+  exact (query_meta_blind env e₁ t k q).symm
+
+/-- the four obligations of `ResetFreshModuloClock`, discharged by `EdMetaEq` (obligation (d), the step
+    property through every arm of the state machine, is `applyR_metaEq`) -/
+theorem edMetaEq_bisim (h : MetaBlindEnv env) : Bisim env (EdMetaEq (D := D) (L := L)) := by
+  intro e₁ e₂ c hr
+  cases c with
+  | query q => exact ⟨hr, by rw [edMetaEq_query env hr q]⟩
+  | op o =>
+    have hs := applyR_rel env h hr o
+    simp only [Editor.stepQ]
+    rcases hs.cases with ⟨⟨a₁, v₁⟩, ⟨a₂, v₂⟩, h1, h2, hm, hv⟩ | ⟨p, h1, h2⟩ | ⟨h1, h2⟩ <;> rw [h1, h2]
+    · exact ⟨hm, by dsimp only at hv ⊢; rw [hv]⟩
+    · rfl
+    · trivial
+
+/-- **reset gives a fresh editor modulo the estimator clock and the pending flush level**: in every
+    environment in which time stamps and flushing are unobservable, the reset editor and the fresh editor
+    built from the same configuration with ANY clock `t` (and flush level 0) are indistinguishable by any
+    history of operations and queries — same return values, same answers, same panic -/
+theorem reset_is_fresh_modulo_clock (h : MetaBlindEnv env) (e : Editor D L) (t : Nat) (l : List (OpQ L)) :
+    seen ((e.clear env).runQ env l) = seen ((Editor.fresh { e.config env with time := t }).runQ env l) :=
+  resetFreshModuloClock_of_relation env EdMetaEq (fun e t k => edMetaEq_setMeta e t k)
+    (fun _ _ _ h1 h2 => h1.trans h2) (fun _ _ hr q => edMetaEq_query env hr q) (applyR_metaEq env h) e t l
+
+/-- more generally: changing the clock and the flush level of ANY editor is invisible -/
+theorem setMeta_invisible (h : MetaBlindEnv env) (e : Editor D L) (t k : Nat) (l : List (OpQ L)) :
+    seen (e.runQ env l) = seen ((setMeta e t k).runQ env l) :=
+  bisim_runs env EdMetaEq (edMetaEq_bisim env h) l _ _ (edMetaEq_setMeta e t k)
+
+/-- non-vacuity of the hypothesis: the toy environment of this file satisfies it -/
+theorem f25Env_metaBlind : MetaBlindEnv f25Env := ⟨fun _ _ _ _ => rfl, fun _ _ _ _ _ _ => rfl, fun _ => rfl⟩
+
+/-- a history that reaches the clock readers: an API learn of a known phrase (estimate + update_phrase at
+    the clock, flush level raised), keys, a commit, queries -/
+def metaHist : List (OpQ Nat) :=
+  [.op (.learn [1] [28204]), .op kH, .op k4, .query .symbols, .op (.learn [1] [28204]), .op .commit,
+   .query .displayCommit, .op (.unlearn [1] [28204]), .op kH, .query .syllableBuffer]
+
+/-- non-vacuity: after nine keys the clock stands at 9; the reset editor (clock 9) and the fresh editor with
+    clock 0 really differ, both run `metaHist` to the end, and show the same -/
+example : ∃ e : Editor Unit Nat, f25Start.run f25Env f25Prefix = .ok e ∧
+    (e.clear f25Env).shared.time = 9 ∧ (Editor.fresh { e.config f25Env with time := 0 }).shared.time = 0 ∧
+    (e.clear f25Env) ≠ Editor.fresh { e.config f25Env with time := 0 } ∧
+    seen ((e.clear f25Env).runQ f25Env metaHist) = seen ((Editor.fresh { e.config f25Env with time := 0 }).runQ f25Env metaHist) ∧
+    (seen ((e.clear f25Env).runQ f25Env metaHist)).isOk = true := by
+  refine ⟨_, rfl, by decide, by decide, ?_, reset_is_fresh_modulo_clock f25Env f25Env_metaBlind _ 0 _, by decide⟩
+  intro hc
+  have : (Editor.clear f25Env _).shared.time = (Editor.fresh _).shared.time := congrArg (·.shared.time) hc
+  revert this
+  decide
+
+/-- an environment whose estimator READS the clock (it overflows from clock 5 on) -/
+def clockEnv : Env Unit Nat :=
+  { f25Env with estimate := fun t f _ => if t < 5 then .ok f else .panic "estimate-clock" }
+
+/-- **the hypothesis is needed**: with an estimator that reads the clock, a reset editor (clock 9) and a
+    fresh editor with clock 0 are told apart by one API learn -/
+theorem metaBlind_needed :
+    ∃ (e : Editor Unit Nat) (t : Nat) (l : List (OpQ Nat)),
+      seen ((e.clear clockEnv).runQ clockEnv l) ≠ seen ((Editor.fresh { e.config clockEnv with time := t }).runQ clockEnv l) :=
+  ⟨setMeta f25Start 9 0, 0, [.op (.learn [1] [28204])], by decide⟩
+
+/-- … and `clockEnv` indeed violates `MetaBlindEnv` -/
+theorem clockEnv_not_metaBlind : ¬ MetaBlindEnv clockEnv := by
+  intro h
+  have := h.estimate_clock 0 9 0 0
+  exact absurd this (by decide)
 
 end Chewing.C17
